@@ -421,6 +421,8 @@ def unaryop(interp, op, v):
             raise Raised(Exc('TypeError', 'bad operand type for unary -'))
         if isinstance(v, Const) and isinstance(v.value, (int, float, complex)):
             return Const(-v.value)
+        if isinstance(v, Aff) and v.kind in ('num', 'int', 'td'):
+            return Aff(dict((a, -b) for a, b in v.coeffs.items()), -v.const, v.kind)
         if v.tag in NUMERIC:
             return Atom('neg', [v], 'int' if v.tag == 'bool' else v.tag)
         if v.tag is None:
